@@ -307,7 +307,8 @@ pub fn run(ctx: &Ctx, rep: &mut Report) {
         both guard-page placements, inside supervised worker processes. Oracle/monitor: the bound itself evaluates without \
         panic; with len >= bound no panic, the returned slice is a prefix no longer than the bound; with len < bound Ok inside \
         the slice or a panic; canary bytes around the slice intact; no fault (worker survives). The slack histogram bound - \
-        written is reported. non-trivial = every evaluated (format, type, value, options) tuple; distinct by hashing."
+        written is reported. Third observation point: lexical::to_string_with_options, which allocates the bound itself, for \
+        the formats instantiated for the facade x the same options (bounds up to 1 MiB): no panic, length <= bound. non-trivial = every evaluated (format, type, value, options) tuple; distinct by hashing."
         .into();
     rep.assumptions = vec![
         "writing a special value whose string option is None is documented to panic and is not judged here (C15)".into(),
@@ -318,11 +319,17 @@ pub fn run(ctx: &Ctx, rep: &mut Report) {
     if !ok {
         rep.notes.push("infrastructure problem in at least one worker".into());
     }
+    // the third observation point: lexical::to_string_with_options allocates the documented bound itself
+    run_prop(rep, ctx, "facade:to_string_with_options", ctx.n(300_000, 6_000_000), || crate::c17::facade_case_strategy(true), crate::c17::facade_case_json, crate::c17::check_facade_bound);
 }
 
 pub fn replay(_ctx: &Ctx, case: &Value) -> CaseResult {
     crate::c10::init_worker(None, 0);
     let mut l = Local::new();
+    if case["kind"].as_str() == Some("facade-write") {
+        let c = crate::c17::facade_case_from_json(case).ok_or_else(|| Fail::new("facade format not available in this configuration"))?;
+        return crate::c17::check_facade_bound(&c, &mut l);
+    }
     let fmt = case["format"].as_str().unwrap_or("STANDARD");
     let entry = cat().idx(fmt).ok_or_else(|| Fail::new(format!("format {fmt} not compiled in this configuration")))?;
     let ty = Ty::from_name(case["type"].as_str().unwrap_or("f64"));
